@@ -256,3 +256,65 @@ Section Consequences.
     - intros a Ha. unfold greedy in Ha. unfold T. now apply fargmax_first.
   Qed.
 End Consequences.
+
+(* ---------- Leibniz versions: Qred makes every expectation canonical, and maxima are
+   taken in the same association order, so kernel and specification agree on the nose *)
+Lemma lmax_seq_L f n : (0 < n)%nat -> lmax (map f (seq 0 n)) = fmax f n.
+Proof.
+  induction n as [|n IH]; intros Hn; [lia|].
+  destruct n as [|n]; [reflexivity|].
+  rewrite seq_S, map_app, fmax_S by lia. rewrite <- IH by lia.
+  simpl. rewrite fold_left_app. reflexivity.
+Qed.
+
+Lemma fmax_ext_L (f h : nat -> Q) n : (forall i, (i < n)%nat -> f i = h i) -> fmax f n = fmax h n.
+Proof.
+  induction n as [|n IH]; intros H; [reflexivity|].
+  destruct n as [|n]; [simpl; apply H; lia|].
+  rewrite (fmax_S f), (fmax_S h) by lia. rewrite IH by (intros; apply H; lia). rewrite (H (S n)) by lia. reflexivity.
+Qed.
+
+Section KernelEqL.
+  Variable M : mdp.
+  Variable g : Q.
+  Variable V : list Q.
+
+  Lemma k_sav_eq_L st a : k_state_action_value M st a (seq 0 (nE M)) g V = q_sa M g V st a.
+  Proof.
+    pose proof (k_sav_eq M g V st a) as E. unfold k_state_action_value, q_sa in *.
+    rewrite !Qred_correct in E. now apply Qred_complete.
+  Qed.
+
+  Lemma k_updated_value_eq_L st : (0 < nA M)%nat ->
+    k_updated_value M st (seq 0 (nA M)) (seq 0 (nE M)) g V = backup M g V st.
+  Proof.
+    intros HA. unfold k_updated_value, backup. rewrite lmax_seq_L by assumption.
+    apply fmax_ext_L. intros a _. apply k_sav_eq_L.
+  Qed.
+
+  Variables (n mb d : Z).
+  Hypothesis Hn : n = Z.of_nat (nS M).
+  Hypothesis HS : (0 < nS M)%nat.
+  Hypothesis HA : (0 < nA M)%nat.
+  Hypothesis Hmb : (1 <= mb)%Z.
+  Hypothesis Hd : (1 <= d)%Z.
+
+  Lemma kernel_sweep_eq_L padval : kernel_sweep M n mb d padval g V = sweep M g V.
+  Proof.
+    rewrite (kernel_sweep_unfold M g V n mb d Hn HS HA Hmb Hd). unfold sweep, tab.
+    apply map_ext. intros s. now apply k_updated_value_eq_L.
+  Qed.
+
+  Lemma kernel_eval_eq_L zidx padval P : kernel_eval M n mb d zidx padval g P V = sweep_pi M g P V.
+  Proof.
+    unfold kernel_eval, slots.
+    set (slotf := fun slot : option nat => match slot with
+                    | Some st => k_state_action_value M st (nth st P 0%nat) (seq 0 (nE M)) g V
+                    | None => padval end).
+    change (map (map (map slotf)) (prepare n mb d None (map Some (seq 0 (nS M)))))
+      with (map3 slotf (prepare n mb d None (map Some (seq 0 (nS M))))).
+    rewrite (unbatch_map3_prepare n mb d ltac:(lia) Hmb Hd None (map Some (seq 0 (nS M)))).
+    2:{ rewrite map_length, seq_length. lia. }
+    rewrite map_map. unfold sweep_pi, tab. apply map_ext. intros s. apply k_sav_eq_L.
+  Qed.
+End KernelEqL.
